@@ -1137,6 +1137,59 @@ MUTANTS = [
     else:
         d["tracker_args"]["fd"] = _resource_tracker._fd""", """    if sys.platform == "win32":
         d["tracker_args"]["fh"] = msvcrt.get_osfhandle(_resource_tracker._fd)""")),
+    M("respawn-guard-true-when-idle", ["C07"], ["R-RESPAWN-GUARD"],
+      (PE, """            if n_pending - n_running > 0 or n_running > len(self.processes):""", """            if n_pending - n_running >= 0 or n_running > len(self.processes):""")),
+    M("cause-unpickle-diagnosis-without-traceback", ["C04"], ["R-CAUSE"],
+      (PE, """                    bpe.__cause__ = result_item
+                else:""", """                else:""")),
+    M("cause-result-diagnosis-without-error", ["C04"], ["R-CAUSE"],
+      (PE, """                bpe.__cause__ = _RemoteTraceback("".join(tb))
+
+        elif wakeup_reader in ready:""", """
+        elif wakeup_reader in ready:""")),
+    # ------------------------------------- reusable executor: polarity
+    M("resize-same-size-test-inverted", ["C09", "C10"], ["R-RESIZE"],
+      (RE, """            elif max_workers == self._max_workers:
+                return""", """            elif max_workers != self._max_workers:
+                return""")),
+    M("resize-unstarted-does-not-record-size", ["C09", "C10"], ["R-RESIZE"],
+      (RE, """                # update _max_workers and return
+                self._max_workers = max_workers
+                return""", """                # update _max_workers and return
+                return""")),
+    M("resize-unstarted-test-inverted", ["C10"], ["R-RESIZE"],
+      (RE, """            if self._executor_manager_thread is None:
+                # If the executor_manager_thread has not been started""", """            if self._executor_manager_thread is not None:
+                # If the executor_manager_thread has not been started""")),
+    M("resize-shrink-wait-never-ends", ["C09", "C10"], ["R-RESIZE"],
+      (RE, """                len(self._processes) > max_workers and not self._flags.broken""", """                len(self._processes) >= max_workers and not self._flags.broken""")),
+    M("singleton-auto-test-inverted", ["C09"], ["R-SINGLETON"],
+      (RE, """                if reuse == "auto":
+                    reuse = kwargs == _executor_kwargs""", """                if reuse != "auto":
+                    reuse = kwargs == _executor_kwargs""")),
+    M("singleton-create-test-inverted", ["C09"], ["R-SINGLETON"],
+      (RE, """            if executor is None:
+                is_reused = False""", """            if executor is not None:
+                is_reused = False""")),
+    # ------------------------------------- pickler selection / wrapper dispatch polarity
+    M("select-same-name-test-inverted", ["C15"], ["R-PICKLER-SELECT"],
+      (RD, """    if loky_pickler == _loky_pickler_name:
+        return""", """    if loky_pickler != _loky_pickler_name:
+        return""")),
+    M("select-env-overrides-explicit", ["C15"], ["R-PICKLER-SELECT"],
+      (RD, """    if loky_pickler is None:
+        loky_pickler = ENV_LOKY_PICKLER""", """    if loky_pickler is not None:
+        loky_pickler = ENV_LOKY_PICKLER""")),
+    M("select-register-drops-reducer", ["C15"], ["R-PICKLER-SELECT"],
+      (RD, """            self.dispatch_table[type] = reduce_func""", """            pass""")),
+    M("select-module-reducers-not-merged", ["C15"], ["R-PICKLER-SELECT"],
+      (RD, """            loky_dt.update(_dispatch_table)""", """            pass""")),
+    M("wrap-isclass-test-inverted", ["C16"], ["R-WRAP-DISPATCH"],
+      (CW, """    if inspect.isclass(obj):
+        # Make sure the wrapped instances""", """    if not inspect.isclass(obj):
+        # Make sure the wrapped instances""")),
+    M("wrap-getattr-inverted", ["C16"], ["R-WRAP-DISPATCH"],
+      (CW, """        if attr not in ["_obj", "_keep_wrapper"]:""", """        if attr in ["_obj", "_keep_wrapper"]:""")),
     # ------------------------------------------------------- R-SCN-* (polarity)
     M("scn-wakeup-inverted", ["C01", "C02", "C05"], ["R-SCN-WAKEPRIM"],
       (PE, """    def wakeup(self):
@@ -1714,7 +1767,7 @@ _resource_tracker""")),
             # mark the pool broken
             return
 
-    # set the global _CURRENT_DEPTH mechanism to limit recursive call""", """    # set the global _CURRENT_DEPTH mechanism to limit recursive call"""),
+    _process_reference_size = None""", """    _process_reference_size = None"""),
       (PE, """        if call_item is None:
             # Notify queue management thread about worker shutdown""", """        if initializer is not None:
             try:
@@ -1796,8 +1849,10 @@ _resource_tracker""")),
     M("depth-installed-after-first-task", ["C19"], ["R-DEPTH"],
       (PE, """    global _CURRENT_DEPTH
     _CURRENT_DEPTH = current_depth
-    _process_reference_size = None""", """    global _CURRENT_DEPTH
-    _process_reference_size = None"""),
+
+    if initializer is not None:""", """    global _CURRENT_DEPTH
+
+    if initializer is not None:"""),
       (PE, """        # Free the resource as soon as possible, to avoid holding onto
         # open files or shared memory that is not needed anymore
         del call_item""", """        # Free the resource as soon as possible, to avoid holding onto
@@ -1821,9 +1876,9 @@ _resource_tracker""")),
 
     def flag_executor_shutting_down(self):""", """    def flag_executor_shutting_down(self):""")),
     M("leak-shutdown-keeps-queues", ["C20"], ["R-LEAK"],
-      (PE, """        self._call_queue = None
-        self._result_queue = None
-        self._processes_management_lock = None""", """        self._processes_management_lock = None""")),
+      (PE, """            self._call_queue = None
+            self._result_queue = None
+            self._processes_management_lock = None""", """            self._processes_management_lock = None""")),
 
     # ------------------------------------------- inspired by seeded changes (8.5)
     M("clear-wakeup-at-end-of-iteration", ["C01", "C05"], ["R-WAKE-CLEAR"],
